@@ -93,6 +93,26 @@ def check(run, prog, tier):
     sets = [(b, i, n) for b, i, n in ei.calls("set_error_state") if b.id in zreg and mentions(n["args"][0], "ES_MAX_EVAL_COST")]
     errs = [(b, i, n) for b, i, n in ei.calls("error") if b.id in zreg]
     okz = bool(sets) and bool(errs) and all(any(ei.point_dominates((sb.id, si), (b.id, i)) for sb, si, sn in sets) for b, i, n in errs) and S[0] not in zreg
+    if not okz:
+        # the zero branch may have been moved into a small file-local helper: look again with such helpers spliced in
+        ez = prog.funci("eval_instruction")
+        if ez is not ei:
+            Tz = None
+            for bid in ez.reachable():
+                c = ez.branch_cond(bid)
+                if c is None:
+                    continue
+                e, t = normalize_cond(c, True)
+                e = strip(e)
+                if e.get("k") == "Un" and e.get("op") == "--" and strip(e["e"]).get("n") == "eval_cost":
+                    Tz = (bid, t)
+            Sz = [bid for bid in ez.reachable() if ez.blocks[bid].term and ez.blocks[bid].term["k"] == "SwitchStmt" and len(ez.blocks[bid].succ) > 100]
+            if Tz and Sz:
+                zbz = ez.blocks[Tz[0]].succ[1] if Tz[1] else ez.blocks[Tz[0]].succ[0]
+                zr = cfgq.reach_set(ez, [zbz], avoid_blocks=[Sz[0]])
+                sets = [(b, i, n) for b, i, n in ez.calls("set_error_state") if b.id in zr and mentions(n["args"][0], "ES_MAX_EVAL_COST")]
+                errs = [(b, i, n) for b, i, n in ez.calls("error") if b.id in zr]
+                okz = bool(sets) and bool(errs) and all(any(ez.point_dominates((sb.id, si), (b.id, i)) for sb, si, sn in sets) for b, i, n in errs) and Sz[0] not in zr
     run.ob("C04-a", "zero-branch", okz, "zero branch: set_error_state(ES_MAX_EVAL_COST) dominates error(); the branch never falls into the dispatch" if okz else "zero branch does not record ES_MAX_EVAL_COST before raising (or falls through)",
            ei.file, ei.line_of_block(zb), "eval_instruction", what="the eval-cost error is raised without the uncatchable marker")
     # writers of eval_cost
@@ -140,6 +160,11 @@ def check(run, prog, tier):
                 incs.append((f, b, i, n))
             if n.get("k") == "Asg" and strip(n["L"]).get("n") == "csp" and strip(n["L"]).get("d") == "global" and n.get("op") in ("+=",):
                 incs.append((f, b, i, n))
+            # csp = csp + K
+            if n.get("k") == "Asg" and n.get("op") == "=" and strip(n["L"]).get("n") == "csp" and strip(n["L"]).get("d") == "global":
+                r = strip(n["R"])
+                if r.get("k") == "Bin" and r.get("op") == "+" and any(strip(a).get("n") == "csp" and (const_val(b_) or 0) > 0 for a, b_ in ((r["L"], r["R"]), (r["R"], r["L"]))):
+                    incs.append((f, b, i, n))
     run.need(incs, "csp increments")
     for f, b, i, n in incs:
         run.saw(f)
@@ -267,6 +292,13 @@ def check(run, prog, tier):
                 c = f.branch_cond(b)
                 here = c is not None and mentions(c, "__MAX_MAPPING_SIZE__") and any(x is n or show(x) == show(n) for x in walk(c))
                 g = here or limit_guard(f, b.id, "__MAX_MAPPING_SIZE__") is not None
+                if not g:
+                    # `m->count++; if (m->count > MAX) ...`: every path from the increment to a return (or to another increment)
+                    # passes a comparison of that count with the limit
+                    tests = {bid for bid in f.reachable() if f.branch_cond(bid) is not None and mentions(f.branch_cond(bid), "__MAX_MAPPING_SIZE__")
+                             and any(x.get("k") == "Mem" and x.get("f") == "count" for x in walk(f.branch_cond(bid)))}
+                    if tests and (b.id in tests or f.reach_avoiding(b.live_succ(), lambda blk: (f.exit in blk.live_succ() and not blk.nr) or blk.id == b.id, avoid_blocks=tests) is None):
+                        g = True
                 run.ob("C04-e", inst, bool(g), "%s %s" % (show(n), "tested against MaxMappingSize" if g else "not tested against MaxMappingSize"), f.file, n.get("l"), f.name,
                        what="%s adds a mapping node without the size limit" % f.name)
     # mapping count written wholesale:  m->count = n  - the counter n must itself be limited where it grows
